@@ -188,6 +188,9 @@ func (f *field) shape() string {
 	case kArrayComp:
 		return "array-of-" + f.elem.shape()
 	case kMapPrim:
+		if f.typ.Name() != "" {
+			return "named-" + f.typ.Name() // a named map type (with methods)
+		}
 		return "map-" + family(f.prim)
 	case kMapPtrStruct:
 		return "map-ptr-struct"
@@ -358,6 +361,8 @@ type tgen struct {
 	// twoTags: the fields carry a second tag set under altTag (other names,
 	// other ignore flags, other merge policies) for the StructTag option
 	twoTags bool
+	// leadInline: the next struct type generated starts with an inline struct
+	leadInline bool
 }
 
 // tag builds the struct tag of field num: the config tag set from opts, and --
@@ -469,9 +474,15 @@ func (g *tgen) structType(depth, nf int, validators bool) reflect.Type {
 		inline := false
 		var pool []string      // the policy tag options this kind of field may carry ...
 		polNum, polDen := 0, 1 // ... and how often
-		x := r.Intn(113)
+		x := r.Intn(116)
 		if depth == 0 && (x >= 44 && x < 62 || x >= 111) {
 			x = r.Intn(44)
+		}
+		if i == 0 && g.leadInline {
+			// the struct behind an inlined pointer starts with a struct inlined
+			// into it in turn, the ordinary fields come after it
+			g.leadInline = false
+			x = -1
 		}
 		nested := func(v bool) reflect.Type {
 			if r.Intn(3) == 0 {
@@ -480,6 +491,12 @@ func (g *tgen) structType(depth, nf int, validators bool) reflect.Type {
 			return g.structType(depth-1, 1+r.Intn(4), v)
 		}
 		switch {
+		case x < 0: // leading inline struct of primitives (by value or by pointer)
+			sf.Type = g.structType(0, 1+r.Intn(2), false)
+			if r.Intn(4) == 0 {
+				sf.Type = reflect.PtrTo(sf.Type)
+			}
+			inline = true
 		case x < 36:
 			sf.Type = primTypes[r.Intn(len(primTypes))]
 			if rules := vrules[family(sf.Type)]; validators && len(rules) > 0 && r.Intn(4) == 0 {
@@ -533,6 +550,10 @@ func (g *tgen) structType(depth, nf int, validators bool) reflect.Type {
 			}
 		case x < 94:
 			sf.Type = reflect.MapOf(tString, elemTypes[r.Intn(len(elemTypes))])
+			if r.Intn(4) == 0 {
+				// named map types with an InitDefaults method (doing nothing / setting one entry)
+				sf.Type = []reflect.Type{tLibMap, tLibDefMap}[r.Intn(2)]
+			}
 			pool, polNum, polDen = listPols, 1, 3
 		case x < 97:
 			sf.Type = reflect.MapOf(tString, reflect.PtrTo(g.primStruct()))
@@ -551,7 +572,11 @@ func (g *tgen) structType(depth, nf int, validators bool) reflect.Type {
 		case x < 111: // fields no configuration mentions
 			sf.Type = []reflect.Type{tLibIniter, tConfigVal, tLibIniter, tConfigVal}[x-107]
 		default: // inline struct by pointer
-			sf.Type = reflect.PtrTo(g.structType(depth-1, 1+r.Intn(3), false))
+			nf := 1 + r.Intn(3)
+			if r.Intn(2) == 0 {
+				g.leadInline, nf = true, nf+1
+			}
+			sf.Type = reflect.PtrTo(g.structType(depth-1, nf, false))
 			inline = true
 			pool, polNum, polDen = structPols, 2, 5
 		}
